@@ -103,8 +103,22 @@ def post(log_path, case):
     return None
 
 
+import os as _os
+import sys as _sys
+
+_sys.path.insert(0, _os.path.join(_os.path.dirname(_os.path.dirname(_os.path.abspath(__file__))), "extract"))
+import wake_extract  # noqa: E402
+
+
+def pre(repo):
+    """translator step (facts no trace shows): the manager's wake loops wait without bound for an
+    announced waiter and wake exactly the number asked for"""
+    wake_extract.check(repo)
+
+
 SPEC = {
     "C07": {
+        "pre": pre,
         "parts": [{"name": "rwlock", "harness": "rwlock", "model": "RwLock", "runtime": True, "gen": gen,
                    "post": post,
                    "nontrivial": lambda s: (s["hist"].get("xchg RT", 0) + s["hist"].get("xchg WT", 0)) >= 1},
